@@ -94,6 +94,9 @@ Proof.
   - unfold mv. apply C12_Mat.sumf_ext. intros; ring.
 Qed.
 
+Lemma let_triple {A B C} (x : A * B * C) : (let '(_, b, c) := x in (b, c)) = (snd (fst x), snd x).
+Proof. now destruct x as [[? ?] ?]. Qed.
+
 (* the whole translated directional kernel (any estimator, bandwidth, tolerance, separate_dirs flag) *)
 Theorem directional_rotates Q f edges pos dirs tol bw sep et :
   C12_Mat.orth (shape0 pos) Q ->
@@ -105,17 +108,15 @@ Proof.
   destruct (negb (Nat.eqb (shape1 pos) (shape1 f))); [reflexivity|].
   destruct (Nat.ltb (length edges) 2); [reflexivity|].
   destruct (nleb O tol (n0 O)); [reflexivity|].
-  match goal with |- (let '(_, _) := ?A in _) = (let '(_, _) := ?B in _) => replace A with B; [reflexivity|] end.
-  unfold par_for. apply fold_left_ext_in. intros i [c v] _.
-  match goal with |- (let '(_, _) := ?A in _) = (let '(_, _) := ?B in _) => replace A with B; [reflexivity|] end.
-  apply for_ext. intros j [c1 v1] Hj.
-  match goal with |- (let '(_, _) := ?A in _) = (let '(_, _) := ?B in _) => replace A with B; [reflexivity|] end.
-  apply for_ext. intros k [c2 v2] Hk.
+  set (X := par_for _ _ _ _ _). set (Y := par_for _ _ _ _ _).
+  assert (H : X = Y); [|rewrite H; reflexivity].
+  subst X Y. unfold par_for. apply fold_left_ext_in. intros i [c0 v0] _.
+  rewrite !let_pair_id. apply for_ext. intros j [c1 v1] Hj.
+  rewrite !let_pair_id. apply for_ext. intros k [c2 v2] Hk.
   rewrite dist_euclid_rotate by (auto; lia).
   destruct (orb _ _); [reflexivity|].
-  match goal with |- (let '(_, _, _) := ?A in _) = (let '(_, _, _) := ?B in _) => replace A with B; [reflexivity|] end.
-  apply for_ext. intros d [[b c3] v3] Hd.
-  destruct b; [reflexivity|].
-  rewrite dir_test_rotates by (auto; lia). reflexivity.
+  rewrite !let_triple. f_equal; f_equal; [f_equal|];
+    (apply for_ext; intros d [[b c3] v3] Hd; destruct b; [reflexivity|];
+     rewrite dir_test_rotates by (auto; lia); reflexivity).
 Qed.
 End Dir.
